@@ -56,6 +56,11 @@ type Controller struct {
 	// PickFn answers a Pick call made on the picker of generation gen. It is
 	// called without any Controller lock held.
 	PickFn func(c *Controller, gen int, info balancer.PickInfo) (balancer.PickResult, error)
+	// HealthCheck is optional: SubConn i is created with
+	// NewSubConnOptions.HealthCheckEnabled when i < len(HealthCheck) and
+	// HealthCheck[i] (nil = no SubConn asks for health checking). Set it before
+	// the channel is created.
+	HealthCheck []bool
 
 	mu     sync.Mutex
 	cc     balancer.ClientConn
@@ -205,6 +210,7 @@ func (b *planBalancer) UpdateClientConnState(balancer.ClientConnState) error {
 		i := i
 		var sc balancer.SubConn
 		sc, err := b.cc.NewSubConn([]resolver.Address{{Addr: a}}, balancer.NewSubConnOptions{
+			HealthCheckEnabled: i < len(c.HealthCheck) && c.HealthCheck[i],
 			StateListener: func(s balancer.SubConnState) {
 				c.mu.Lock()
 				c.seq++
